@@ -122,6 +122,22 @@ var guardSpecs = []guardSpec{
 	{"argStopRuleGuard", "pkg/webhook/v1beta1/pod/inject_webhook.go", "getMetricsCollectorArgs", `append(args, "-stop-rule", rule)`, caAtoms, caParams, true},
 	{"errNoSuggestionGuard", "pkg/webhook/v1beta1/pod/inject_webhook.go", "getMetricsCollectorArgs", `errInvalidSuggestionName`, caAtoms, caParams, true},
 	{"argEarlyStopGuard", "pkg/webhook/v1beta1/pod/inject_webhook.go", "getMetricsCollectorArgs", `append(args, "-s-earlystop"`, caAtoms, caParams, true},
+	{"myAddMetricGuard", "pkg/db/v1beta1/mysql/mysql.go", "GetObservationLog", `append(qfield, metricName)`, dbgAtoms, dbgParams, true},
+	{"myErrStartGuard", "pkg/db/v1beta1/mysql/mysql.go", "GetObservationLog", `fmt.Errorf("Error parsing start time`, dbgAtoms, dbgParams, true},
+	{"myAddStartGuard", "pkg/db/v1beta1/mysql/mysql.go", "GetObservationLog", `append(qfield, formattedStartTime)`, dbgAtoms, dbgParams, true},
+	{"myErrEndGuard", "pkg/db/v1beta1/mysql/mysql.go", "GetObservationLog", `fmt.Errorf("Error parsing completion time`, dbgAtoms, dbgParams, true},
+	{"myAddEndGuard", "pkg/db/v1beta1/mysql/mysql.go", "GetObservationLog", `append(qfield, formattedEndTime)`, dbgAtoms, dbgParams, true},
+	{"myQueryGuard", "pkg/db/v1beta1/mysql/mysql.go", "GetObservationLog", `d.db.Query(`, dbgAtoms, dbgParams, true},
+	{"myErrQueryGuard", "pkg/db/v1beta1/mysql/mysql.go", "GetObservationLog", `fmt.Errorf("Failed to get ObservationLogs`, dbgAtoms, dbgParams, true},
+	{"myRowGuard", "pkg/db/v1beta1/mysql/mysql.go", "GetObservationLog", `append(result.MetricLogs`, dbgAtoms, dbgParams, true},
+	{"pgAddMetricGuard", "pkg/db/v1beta1/postgres/postgres.go", "GetObservationLog", `append(qfield, metricName)`, dbgAtoms, dbgParams, true},
+	{"pgErrStartGuard", "pkg/db/v1beta1/postgres/postgres.go", "GetObservationLog", `fmt.Errorf("Error parsing start time`, dbgAtoms, dbgParams, true},
+	{"pgAddStartGuard", "pkg/db/v1beta1/postgres/postgres.go", "GetObservationLog", `append(qfield, formattedStartTime)`, dbgAtoms, dbgParams, true},
+	{"pgErrEndGuard", "pkg/db/v1beta1/postgres/postgres.go", "GetObservationLog", `fmt.Errorf("Error parsing completion time`, dbgAtoms, dbgParams, true},
+	{"pgAddEndGuard", "pkg/db/v1beta1/postgres/postgres.go", "GetObservationLog", `append(qfield, formattedEndTime)`, dbgAtoms, dbgParams, true},
+	{"pgQueryGuard", "pkg/db/v1beta1/postgres/postgres.go", "GetObservationLog", `d.db.Query(`, dbgAtoms, dbgParams, true},
+	{"pgErrQueryGuard", "pkg/db/v1beta1/postgres/postgres.go", "GetObservationLog", `fmt.Errorf("Failed to get ObservationLogs`, dbgAtoms, dbgParams, true},
+	{"pgRowGuard", "pkg/db/v1beta1/postgres/postgres.go", "GetObservationLog", `append(result.MetricLogs`, dbgAtoms, dbgParams, true},
 	{"addFinalizerGuard", "pkg/controller.v1beta1/trial/trial_controller_util.go", "needUpdateFinalizers", "append(pendingFinalizers, cleanMetricsFinalizer)", finAtoms, finParams, false},
 	{"removeFinalizerGuard", "pkg/controller.v1beta1/trial/trial_controller_util.go", "needUpdateFinalizers", "stmt:finalizers := []string{}", finAtoms, finParams, false},
 	{"dbCleanupGuard", "pkg/controller.v1beta1/trial/trial_controller_util.go", "updateFinalizers", "r.DeleteTrialObservationLog(instance)", finAtoms, finParams, false},
@@ -281,6 +297,11 @@ var caAtoms = map[string]string{
 	"metricsCollectorConfigData.WaitAllProcesses != nil": "waitSet", "len(esRules) > 0": "hasRules", "err != nil": "lookupFailed",
 }
 var caParams = []string{"hasMountPath", "sourceSet", "filterSet", "hasFormats", "isFile", "fsPathSet", "isStdOut", "waitSet", "hasRules", "lookupFailed"}
+
+var dbgAtoms = map[string]string{
+	`metricName != ""`: "hasMetric", `startTime != ""`: "hasStart", `endTime != ""`: "hasEnd", "err != nil": "failed#",
+}
+var dbgParams = []string{"hasMetric", "hasStart", "hasEnd", "failed1", "failed2", "failed3", "failed4", "failed5"}
 
 var finAtoms = map[string]string{
 	"trial.ObjectMeta.DeletionTimestamp.IsZero()": "(!deleting)", "instance.ObjectMeta.DeletionTimestamp.IsZero()": "(!deleting)",
